@@ -86,5 +86,12 @@ Record tables : Set := mk_tables {
   t_internal : status -> bool -> factory;   (* api.internal_convert: ctx.status -> convert_by_default -> wrapper factory *)
   t_disabled_check : bool;                  (* converted_call runs f unconverted when the current status is DISABLED,
                                                before any conversion is attempted *)
-  t_to_graph_user_requested : bool          (* api.to_graph converts with user_requested=True *)
+  t_to_graph_user_requested : bool;         (* api.to_graph converts with user_requested=True *)
+  (* `if is_autograph_artifact(f): return f` at the head of the decorator: applied to a callable that already
+     carries autograph_info__ (another wrapper's result, an inner function of converted code, a marked function)
+     the decorator hands it back unwrapped *)
+  t_dnc_skips_art : bool;                   (* api.do_not_convert *)
+  t_unspec_skips_art : bool;                (* api.call_with_unspecified_conversion_status *)
+  t_convert_skips_art : bool;               (* api.convert.decorator *)
+  t_internal_skips_art : bool               (* api.internal_convert *)
 }.
